@@ -86,7 +86,7 @@ def run_part(ctx, thorough):
                            {"edges": g.n_edges(), "states": g.n_states(), "seed": ctx.seed})
     mark("graph")
     # (3) replay on the real service; ledgers recorded for every k-th walk
-    every = 1 if thorough else 4
+    every = 3 if thorough else 4
     res = goenv.run_harness(ctx, PKG, "^TestVerifC12HolePunchReplay$", inputs=beh, timeout=1500,
                             env={"VERIF_C12HP_TRACE_EVERY": every})
     div = classify_mismatches(ctx, res, "holepunch")
@@ -114,12 +114,22 @@ def run_part(ctx, thorough):
     extra = res.get("extra") or {}
     summary = ("MC %d states / %d transitions (full families, %d connection events); replayed %d transitions in %d walks "
                "(%d steps) on the real Service; ledgers %d accepted, %d rejected %s; L2 divergences %d; "
-               "coordination streams that rode a direct connection (initiator side, refused by a real responder): %d steps"
+               "coordination streams that rode a direct connection (initiator side, refused by a real responder): %d steps; "
+               "host contract on the real BasicHost+Swarm: %d cases"
                % (r1.distinct, r1.generated, 3 if thorough else 2, g.n_edges(), len(walks), res["steps"], acc, len(rej),
-                  classes, div, extra.get("stream-over-direct", 0)))
+                  classes, div, extra.get("stream-over-direct", 0), hc["replayed"]))
     mark("traces")
+    # (5) the contract the hole puncher relies on, on the real BasicHost over a real Swarm (and the fake host's fidelity)
+    hc = goenv.run_harness(ctx, PKG, "^TestVerifC12HolePunchHostContract$", timeout=900)
+    div += classify_mismatches(ctx, hc, "holepunch-host")
+    hx = hc.get("extra") or {}
+    for need in ("connect-force-only-relayed-conns-ok=false", "connect-force-only-relayed-conns-ok=true", "newstream-rode-L",
+                 "newstream-rode-D", "newstream-rode-"):
+        if not hx.get(need) and not hc["mismatches"]:
+            raise MachineryError("vacuous host-contract run: no %s case in %d" % (need, hc["replayed"]))
+    mark("host")
     log("C12hp: " + summary + " [" + ", ".join(marks) + "]")
-    return {"summary": summary, "states": r1.distinct, "transitions": r1.generated, "replayed": res["replayed"] + acc,
+    return {"summary": summary, "states": r1.distinct, "transitions": r1.generated, "replayed": res["replayed"] + acc + hc["replayed"],
             "samples": (res.get("samples") or [])[:2]}
 
 
